@@ -1,4 +1,7 @@
-"""Per-property configuration of the check driver."""
+"""Per-property configuration of the check driver: every harness/cNN.py defines CONFIG."""
+import glob
+import importlib
+import os
 
 COMMON_TRUSTED = [
     "Coq 8.16.1 kernel + vm_compute (no native_compute); theorems re-checked by a full .vo build on every run",
@@ -7,12 +10,18 @@ COMMON_TRUSTED = [
     "the hand-written Coq models describe the Python code; only the correspondence (differential comparison inside Coq) validates that description",
 ]
 
-REGISTRY = {
-    "C10": dict(
-        module="harness.c10", coq=["C10"], level="proof",
-        trusted_base=["model M_Frames.v (extract_iter) is hand-written; hook behaviour is abstracted to finite stateless tables"],
-        assumptions=["hook results are tuples/lists/FrameIterators of frames and objects; hooks are deterministic",
-                     "unwrap tables are rank-ordered (acyclic) apart from the linear self-loop (a branching cyclic unwrap does not terminate and is outside 'item trees')"],
-        exhaustive_in={"thorough": False},
-    ),
-}
+
+def _discover():
+    reg = {}
+    here = os.path.dirname(os.path.abspath(__file__))
+    for path in sorted(glob.glob(os.path.join(here, "c[0-9][0-9].py"))):
+        name = os.path.basename(path)[:-3]
+        mod = importlib.import_module("harness." + name)
+        cfg = dict(getattr(mod, "CONFIG"))
+        cfg["module"] = "harness." + name
+        cfg.setdefault("rule", getattr(mod, "RULE", ""))
+        reg[mod.PROP] = cfg
+    return reg
+
+
+REGISTRY = _discover()
